@@ -124,7 +124,10 @@ PROPS = {
                 "of the three repaired defects; exhaustive = all strings of length <=3 (quick) / <=4 (thorough) over the 39-byte alphabet "
                 "0 1 9 a e E x b _ n u U f i . + - \" ` \\ / * = ! : < > & | ( { space \\n \\t \\r NUL 0x80 0xc2 0xa0, both modes; "
                 "20k (quick) / 300k (thorough) random strings (alphabet soup, token-fragment soup, uniform bytes); every examples/*.gr and "
-                "tests/*.gr whole in both modes plus 12 (quick) / 150 (thorough) windows of each with up to 3 byte mutations. "
+                "tests/*.gr whole in both modes plus 12 (quick) / 150 (thorough) windows of each with up to 3 byte mutations; "
+                "(lexfam2.go) cases `2;<text>`: the same text through TWO lexers (file mode, then line mode) with pointer identities numbered over both "
+                "runs - 'one shared object' is checked across lexers (the model threads one interning table through both runs): every shipped program, "
+                "300 / 5000 fragment soups, long repeated tokens, every escape body. "
                 "non-trivial = at least one token before the end marker; distinct = distinct (mode, input) line.",
         "exhaustive_note": "strings of length <=3 (quick) / <=4 (thorough) over the 39-byte significant alphabet, both modes, are enumerated completely",
         "trusted_base": COMMON_TB + ["modelled: lexer/lexer.go (all of it: NextToken, skipWhitespace, readChar/peekChar past the end, readNumber, "
@@ -137,7 +140,7 @@ PROPS = {
                                      "space-rune table, block-comment scanner); the theorems are about the model; the link statement<->theorems is by reading, "
                                      "and both are evaluated on the same cases"],
         "assumptions": ["Go's strings.TrimSpace / unicode.IsSpace / utf8.AppendRune behave as documented (modelled by trimSpaceRight / appendRune, compared on every comment and \\u escape the generators produce)",
-                        "the interning map of the running process may already hold keys from earlier cases; pointer identities are compared only within one case, numbered by first appearance"],
+                        "the interning map of the running process may already hold keys from earlier cases; pointer identities are compared only within one case (one lexer, or the two lexers of a `2;` case), numbered by first appearance"],
     },
     "C17": {
         "generated": True,
